@@ -7,7 +7,7 @@ import ast
 from ..core import Report, Undecided, AnalysisError
 from ..srcmodel import Model
 from ..forks import explore
-from ..ratfun import Rat
+from ..ratfun import Rat, satom
 from .. import vs
 from ..symex import (Interp, Inst, OpV, Vec, SpaceV, FieldV, PyRaise, Opaque)
 from ..opalg import OpHooks, apply, flags, OPFILE
@@ -84,8 +84,7 @@ class Hooks6(Hooks5):
     def on_getattr(self, interp, obj, name):
         if isinstance(obj, Vec) and name == 'norm':
             from ..symex import Builtin
-            return Builtin('norm', lambda: Rat.var((
-                'norm', vs.freeze(obj.val))))
+            return Builtin('norm', lambda: Rat.var(satom('norm', vs.freeze(obj.val))))
         return Hooks5.on_getattr(self, interp, obj, name)
 
     def on_decide(self, interp, cond, node):
